@@ -106,7 +106,7 @@ func runC17(c *c17case) {
 			select {
 			case <-done:
 			case <-time.After(150 * time.Millisecond):
-				stuck++ // its instant has passed and the routine still waits
+				stuck++           // its instant has passed and the routine still waits
 				li.expired = true // do not wait for it again
 			}
 		}
